@@ -394,6 +394,11 @@ func (fr *frame) execUnOp(st *state, v *ssa.UnOp) {
 			return
 		}
 		if g, ok := v.X.(*ssa.Global); ok {
+			if g.Name() == "init$guard" && fr.top {
+				// the package initialiser is verified for its one real run (the guard is false then)
+				fr.regs[v] = "false"
+				return
+			}
 			key := "X|" + g.Pkg.Pkg.Name() + "." + g.Name() + "|" + srt
 			t := fc.hget(st, key)
 			fr.regs[v] = t
